@@ -323,6 +323,19 @@ func parsePCR(i *astikit.BytesIterator) (cr *ClockReference, err error) {
 }
 
 func writePacket(w *astikit.BitsWriter, p *Packet, targetPacketSize int) (written int, retErr error) {
+	// make sure the packet fits before anything is written
+	needed := 1 + mpegTsPacketHeaderSize + len(p.Payload)
+	if p.Header.HasAdaptationField {
+		needed += calcPacketAdaptationFieldSize(p.AdaptationField)
+	}
+	if needed > targetPacketSize {
+		return 0, fmt.Errorf(
+			"writePacket: can't write %d bytes of payload: only %d is available",
+			len(p.Payload),
+			targetPacketSize-(needed-len(p.Payload)),
+		)
+	}
+
 	if retErr = w.Write(uint8(syncByte)); retErr != nil {
 		return
 	}
@@ -393,23 +406,32 @@ func writePCR(w *astikit.BitsWriter, cr *ClockReference) (int, error) {
 }
 
 func calcPacketAdaptationFieldLength(af *PacketAdaptationField) (length uint8) {
-	length++
+	return uint8(calcPacketAdaptationFieldSize(af) - 1)
+}
+
+// calcPacketAdaptationFieldSize returns the number of bytes the adaptation field takes in a packet,
+// including its length byte. Unlike calcPacketAdaptationFieldLength it can't overflow
+func calcPacketAdaptationFieldSize(af *PacketAdaptationField) (size int) {
+	if af.IsOneByteStuffing {
+		return 1
+	}
+	size = 2
 	if af.HasPCR {
-		length += pcrBytesSize
+		size += pcrBytesSize
 	}
 	if af.HasOPCR {
-		length += pcrBytesSize
+		size += pcrBytesSize
 	}
 	if af.HasSplicingCountdown {
-		length++
+		size++
 	}
 	if af.HasTransportPrivateData {
-		length += 1 + uint8(len(af.TransportPrivateData))
+		size += 1 + len(af.TransportPrivateData)
 	}
 	if af.HasAdaptationExtensionField {
-		length += 1 + calcPacketAdaptationFieldExtensionLength(af.AdaptationExtensionField)
+		size += 1 + int(calcPacketAdaptationFieldExtensionLength(af.AdaptationExtensionField))
 	}
-	length += uint8(af.StuffingLength)
+	size += af.StuffingLength
 	return
 }
 
